@@ -211,6 +211,10 @@ class SysSim(Engine):
         ops = [{"op": "fill", "vseed": rng.randint(0, 10 ** 6), "inf": rng.randint(1, 1000) if rng.chance(0.12) else 0}]
         if world["stocks"] and rng.chance(0.3):
             ops.insert(0, {"op": "user_arrays", "relabel": rng.choice([None, "inflow", "outflow"])})
+        if rng.chance(0.15):
+            # the exported system is a view assembled by hand from the objects of the built one: same flows, stocks and parameters, the
+            # processes in another order (their ids are then not their positions)
+            ops.insert(0, {"op": "reassemble", "order": rng.randint(0, 10 ** 6)})
         for _ in range(rng.randint(1, 5)):
             kind = rng.weighted([("to_dict", 3), ("pickle", 2), ("flows_csv", 3), ("stocks_csv", 3), ("to_dfs", 1)])
             if world.get("mixed") and kind in ("flows_csv", "stocks_csv"):
@@ -898,6 +902,18 @@ class SysSim(Engine):
     def _c19_step(self, st, op):
         sys_, world = st.sys, st.world
         kind = op["op"]
+        if kind == "reassemble":
+            from flodym import MFASystem
+            names = list(sys_.processes)
+            rs = np.random.RandomState(op["order"] % 2 ** 31)
+            order = [names[i] for i in rs.permutation(len(names))]
+            if order == names and len(names) > 1:
+                order = names[::-1]
+            st.sys = MFASystem(dims=sys_.dims, processes={n: sys_.processes[n] for n in order}, flows=dict(sys_.flows), stocks=dict(sys_.stocks),
+                               parameters=dict(sys_.parameters))
+            st.proc_order = order
+            self._probe(st, "system_reassembled_with_processes_in_another_order")
+            return
         if kind == "user_arrays":
             # a model author builds the stock objects by hand from own StockArrays (default array name: "unnamed")
             from flodym import StockArray
@@ -1190,7 +1206,7 @@ class SysSim(Engine):
             di = d.get("dimension_items", {})
             if {k: list(v) for k, v in di.items()} != {x["name"]: list(x["items"]) for x in world["dims"]}:
                 bad("dimension_items wrong")
-            if list(d.get("processes", [])) != list(world["processes"]):
+            if list(d.get("processes", [])) != list(getattr(st, "proc_order", None) or world["processes"]):
                 bad("process list wrong")
             if sorted(d.get("flows", {})) != sorted(st.flow_names):
                 bad(f"flows {sorted(d.get('flows', {}))} instead of {sorted(st.flow_names)}")
